@@ -965,6 +965,7 @@ int cif_container_get_all_loops(cif_container_tp *container, cif_loop_tp ***loop
             FAILURE_HANDLER(soft):
             while (head != NULL) {
                 next_loop = head->next;
+                free(head->loop.category);
                 free(head);
                 head = next_loop;
             }
